@@ -85,6 +85,10 @@ impl Pt {
             Pt::Binary0 | Pt::Binary1 | Pt::BoStatus0 => (k % 2) as f64,
             Pt::Double0 => (1 + k % 2) as f64,
             Pt::Counter0 | Pt::Frozen0 => (100 + k) as f64,
+            // every third value of the analog input lies below, every third above what its 32-bit
+            // integer variations (g30v1 / g32v3) can carry: reported saturated with OVER_RANGE
+            Pt::Analog0 if k % 3 == 2 => -3.0e9 - k as f64,
+            Pt::Analog0 if k % 3 == 0 => 3.0e9 + k as f64,
             Pt::Analog0 | Pt::AoStatus0 => (1000 + 7 * k) as f64,
             Pt::Octets0 => f64::NAN,
         };
@@ -461,6 +465,14 @@ impl Scenario for C02 {
             }
             for k in 1..=n {
                 let (sv, sb, sf, st) = pt.script(k);
+                // what the configured 32-bit integer variations carry of an out-of-range analog value
+                let (sv, sf) = if pt == Pt::Analog0 && sv > i32::MAX as f64 {
+                    (i32::MAX as f64, sf | 0x20)
+                } else if pt == Pt::Analog0 && sv < i32::MIN as f64 {
+                    (i32::MIN as f64, sf | 0x20)
+                } else {
+                    (sv, sf)
+                };
                 let val_ok = if pt == Pt::Octets0 { v.bytes == sb } else { v.value == sv };
                 let flags_ok = pt == Pt::Octets0 || (v.flags & !sm) == (sf & !sm);
                 let time_ok = match v.time {
